@@ -36,8 +36,16 @@ C = {
  "C08": ("FlowState.finished_event / _create_out_event: the FlowFinished event carries return_value == the instance's `_return_value` context entry whenever "
          "that entry exists, for every value incl. None/False/0/empty containers (what `$x = await flow` assigns)", "parameter binding / defaults / return values / private locals through the real interpreter on enumerated signatures x call forms x value types, "
                "concurrent instances, mutable defaults", "dataclass constructors modelled from the real field lists; attribute reads on objects assumed present"),
- "C09": (None, "after every run_to_completion on generated programs x exhaustive short histories (incl. JSON save/restore and simulated idle time): no pending internal "
-               "event, heads parked on waits, no dangling uids, dispatch index == from-scratch scan", "bounds in evidence"),
+ "C09": ("the leaf operations of the dispatch index, for every state of the two maps: _remove_head_from_event_matching_structures removes exactly one "
+         "occurrence of the head's pair and its reverse entry (or changes nothing) and never raises on a consistent index; "
+         "_add_head_to_event_matching_structures appends the pair under exactly the event name it records in the reverse map; both leave every other "
+         "list and entry untouched (frames verified); the action pruning of _clean_up_state keeps every action that a surviving flow instance "
+         "references, as the same object, and invents nothing",
+         "after every run_to_completion on generated programs x exhaustive short histories (incl. JSON save/restore and simulated idle time): no pending "
+         "internal event, heads parked on waits, no dangling uids, dispatch index == from-scratch scan",
+         "that the callers invoke the two operations at the right moments (FlowHead setters, _flow_head_changed, _abort_flow / _finish_flow) and the whole-"
+         "loop invariants (quiescence, parked heads) are bounded only; get_event_name_from_element is unknown pure code; tuples compare structurally "
+         "(axiomatised for lengths 1-3)"),
  "C10": ("the `except Exception` handler of _advance_head_front (block contract on its statements): for every exception object and every element the "
          "head may stand on (with or without source information) the handler raises nothing, queues exactly one internal event, that event is a "
          "ColangError carrying the exception's type name and message, and the flow is marked aborted",
